@@ -85,11 +85,11 @@ class Interp(ExprMixin):
         if isinstance(f, ast.Attribute):
             base = self.ev(f.value)
             if isinstance(base, SOpaque) and not hasattr(type(base), "own_methods"):
-                for a in node.args:
-                    self.ev(a.value if isinstance(a, ast.Starred) else a)
-                for kw in node.keywords:
-                    self.ev(kw.value)
-                return base.method(self, f.attr, [1] * len(node.args), {kw.arg: 1 for kw in node.keywords}, node)
+                vals = [self.ev(a.value if isinstance(a, ast.Starred) else a) for a in node.args]
+                kws = {kw.arg: self.ev(kw.value) for kw in node.keywords}
+                if any(isinstance(a, ast.Starred) for a in node.args):
+                    vals = [1] * len(vals)
+                return base.method(self, f.attr, vals, kws, node)
             fn = self.getattr(base, f.attr, f)
         else:
             fn = self.ev(f)
